@@ -216,11 +216,13 @@ impl Decoder {
 // Decode field lines received on Request or Push stream.
 // https://www.rfc-editor.org/rfc/rfc9204.html#name-field-line-representations
 pub fn decode_stateless<T: Buf>(buf: &mut T, max_size: u64) -> Result<Decoded, DecoderError> {
-    let (required_ref, _base) = HeaderPrefix::decode(buf)?.get(0, 0)?;
-
-    if required_ref > 0 {
-        return Err(DecoderError::MissingRefs(required_ref));
+    // Without dynamic table, any non-zero Required Insert Count refers to entries
+    // this decoder will never have, and the Base can only be a non-negative delta.
+    let prefix = HeaderPrefix::decode(buf)?;
+    if prefix.encoded_insert_count() != 0 {
+        return Err(DecoderError::MissingRefs(prefix.encoded_insert_count()));
     }
+    prefix.base_without_refs()?;
 
     let mut mem_size = 0;
     let mut fields = Vec::new();
